@@ -73,7 +73,7 @@ func vAfterFailure(c *Client, conn *vConn) {
 	// usable: the next request starts with its own first byte and nothing of the failed query is sent later
 	n0 := len(conn.out)
 	conn.script = append(conn.script[:conn.rpos:conn.rpos], 4) // the server answers Pong
-	conn.cutAt, conn.gateAfter, conn.idles, conn.gates, conn.failAfter = -1, 0, 0, nil, -1
+	conn.cutAt, conn.gateAfter, conn.idles, conn.gates = -1, 0, 0, nil // a connection whose writes fail stays broken
 	perr := c.Ping(context.Background())
 	verifAssert(len(conn.out) > n0, "ping-writes")
 	if len(conn.out) > n0 {
